@@ -272,9 +272,14 @@ def check_mine_block(ctx, oid="C04.4"):
             continue
         cb = txns[0]
         hdrs = [c for c in s.calls if c[0] == "bits.blockchain.block_header"]
-        okh = bool(hdrs)
-        for c in hdrs:
-            m = rules.unfz(c[1][2]) if len(c[1]) > 2 else None
+        roots = [rules.unfz(c[1][2]) if len(c[1]) > 2 else None for c in hdrs]
+        if not hdrs:
+            # the header is built by something else than block_header (a record with __bytes__): every merkle root inside the
+            # header bytes handed to block_ser
+            for c in ser:
+                roots += [t for t in tm.subterms(c[1][0]) if isinstance(t, T) and t.op == "app" and t.args[0] == "bits.blockchain.merkle_root"] if c[1] else []
+        okh = bool(roots)
+        for m in roots:
             leaves = rules.unfz(m.args[1][0]) if isinstance(m, T) and m.op == "app" and m.args[0] == "bits.blockchain.merkle_root" else None
             okh = okh and isinstance(leaves, (list, tuple)) and len(leaves) == n + 1 and all(_one_of(l, ident(t, "txid")) for l, t in zip(leaves, [cb] + txs))
         R.check(oid, "THREAD", fm, label + ": every header commits to merkle_root([tx_deser(tx)['txid'] for the block's own transactions, coinbase first])", okh,
